@@ -1,3 +1,5 @@
+import datetime as dt
+
 from mindsdb_sql.exceptions import ParsingException
 from mindsdb_sql.parser.ast.base import ASTNode
 from mindsdb_sql.parser.utils import indent
@@ -48,7 +50,7 @@ class Insert(ASTNode):
             return val.to_string()
         if val is None:
             return 'NULL'
-        if isinstance(val, (str, int, float)):
+        if isinstance(val, (str, int, float, dt.date, dt.datetime, dt.timedelta)):
             # repr() is a Python literal, not an SQL one (strings; floats like 1e-05, which the lexers read as `1e - 05`)
             return Constant(val).to_string()
         return repr(val)
